@@ -68,6 +68,7 @@ class SearchModel:
 
     def search(self, kind, form, pos, norm_on, all_forms, lemmatizer):
         cands = lemmatizer(form, pos) if lemmatizer else {}
+        cands = {p_: fs_ for p_, fs_ in cands.items() if fs_}      # a part of speech without any form proposes nothing
         if not cands:
             cands = {pos: {form}}
 
